@@ -431,6 +431,14 @@ void jv_ppair_set(int view, void* arr, size_t i, const void* g1a, const void* g2
     a[i].g1 = static_cast<const G1Affine*>(g1a); a[i].g2 = static_cast<const G2Prepared*>(g2p);
 }
 
+/* source-coverage builds (bin/coverage.sh): the profile runtime inside this shared object is hidden, so the adapter exports the flush */
+#ifdef JV_COV
+int __llvm_profile_write_file(void);
+int jv_cov_flush(void) { return __llvm_profile_write_file(); }
+#else
+int jv_cov_flush(void) { return 0; }
+#endif
+
 } /* extern "C" */
 
 #include "adapter_bls.inc"
